@@ -120,3 +120,7 @@ def callable_name(f):
 def apply_lemma(name, **kw):
     """lemma application: a proof step for the symbolic checker; natively a no-op"""
     return True
+
+
+def obj_id(o):
+    return id(o)
